@@ -956,7 +956,7 @@ impl Gen {
             return format!("{}/~/~/nodata", set);
         }
         let key = format!("k{}", self.rng.below(3));
-        let val = match self.rng.below(if self.rich { 12 } else { 2 }) {
+        let val = match self.rng.below(if self.rich { 14 } else { 2 }) {
             0 => format!("s:v{}", self.rng.below(3)),
             1 => format!("i:{}", self.rng.below(3)),
             2 => "n".to_string(),
@@ -967,6 +967,9 @@ impl Gen {
             7 => format!("s:{}", ["\u{e9}t\u{e9}", "\u{1F600}", "q\"uote", "back\\slash", "semi;colon", "comma,x", "tab\tx"][self.rng.below(7)].replace(' ', "_")),
             8 => format!("i:{}", -(self.rng.below(1000) as i64)),
             9 => format!("x:{}", hex(["  lead", "trail  ", " both ", "line\n", "\nline", "tab\t", " ", "\t", "two  words", "a\r\nb"][self.rng.below(10)])),
+            // integers that a 64-bit float cannot hold, and the extremes
+            10 => format!("i:{}", ["9007199254740993", "-9007199254740993", "9223372036854775806", "-9223372036854775807", "9223372036854775807", "-9223372036854775808", "4611686018427387905", "9007199254740992"][self.rng.below(8)]),
+            11 => format!("l:i:{}|i:{}", ["9007199254740993", "-9223372036854775807"][self.rng.below(2)], self.rng.below(3)),
             _ => format!("s:v{}", self.rng.below(3)),
         };
         if self.force_ids || self.rng.chance(15) {
